@@ -6,6 +6,7 @@
 -/
 import AITB.Props.C20c
 import AITB.Props.C20d
+import AITB.Props.C20e
 import AITB.Gen.C20
 namespace AITB.Trie
 
@@ -325,5 +326,91 @@ theorem filtermap_filter_spec {m : FM} {es : Spec} (h : FMInv m es) (fb : Bool) 
   · have := congrArg List.length h.2.1
     simp only [specIds, List.length_map, List.length_range] at this
     simp only [FM.size, this]
+
+
+/-! ### FasterTrie histories -/
+
+inductive FOp where
+  | ins (pf : PF)
+  | erp (id : Nat) (pf : PF)
+
+def fspecStep (s : Spec × Nat) : FOp → Spec × Nat
+  | .ins pf => (specInsert s.1 s.2 pf, s.2 + 1)
+  | .erp id _ => (specErase s.1 id, s.2)
+
+def fstep (st : Option FT) : FOp → Option FT
+  | .ins pf => st.bind (fun t => (t.insert pf).map (·.1))
+  | .erp id pf => st.bind (fun t => t.erase id pf)
+
+def FOpOK (F : List Nat) (es : Spec) : FOp → Prop
+  | .ins pf => ValidPF F pf ∧ pf ≠ []
+  | .erp id pf => ValidPF F pf ∧ pf ≠ [] ∧ ∀ e, (id, e) ∈ es → e = pf
+
+def FHistOK (F : List Nat) : Spec × Nat → List FOp → Prop
+  | _, [] => True
+  | s, op :: ops => FOpOK F s.1 op ∧ FHistOK F (fspecStep s op) ops
+
+theorem frun_RIF (F : List Nat) (ops : List FOp) (t : FT) (es : Spec) (h : RIF t es) (hF : t.F = F)
+    (hok : FHistOK F (es, t.counter) ops) :
+    ∃ t', ops.foldl fstep (some t) = some t' ∧ RIF t' (ops.foldl fspecStep (es, t.counter)).1 ∧ t'.F = F := by
+  induction ops generalizing t es with
+  | nil => exact ⟨t, rfl, h, hF⟩
+  | cons op ops ih =>
+    obtain ⟨hop, hrest⟩ := hok
+    cases op with
+    | ins pf =>
+      obtain ⟨t', he, h'⟩ := RIF_insert h (by rw [hF]; exact hop.1) hop.2
+      have hF' : t'.F = F := by
+        cases pf with
+        | nil => exact absurd rfl hop.2
+        | cons kv r => simp only [FT.insert, Option.some.injEq, Prod.mk.injEq] at he; rw [← he.1]; exact hF
+      have hC' : t'.counter = t.counter + 1 := by
+        cases pf with
+        | nil => exact absurd rfl hop.2
+        | cons kv r => simp only [FT.insert, Option.some.injEq, Prod.mk.injEq] at he; rw [← he.1]
+      obtain ⟨t'', hr, rest⟩ := ih t' _ h' hF' (by rw [hC']; exact hrest)
+      refine ⟨t'', ?_, ?_⟩
+      · simp only [List.foldl_cons, fstep, Option.bind_some, he, Option.map_some]; exact hr
+      · rw [hC'] at rest; exact rest
+    | erp id pf =>
+      obtain ⟨t', he, h'⟩ := RIF_erase h id (by rw [hF]; exact hop.1) hop.2.1 hop.2.2
+      have hFC : t'.F = F ∧ t'.counter = t.counter := by
+        cases pf with
+        | nil => exact absurd rfl hop.2.1
+        | cons kv r => simp only [FT.erase, Option.some.injEq] at he; rw [← he]; exact ⟨hF, rfl⟩
+      obtain ⟨t'', hr, rest⟩ := ih t' _ h' hFC.1 (by rw [hFC.2]; exact hrest)
+      refine ⟨t'', ?_, ?_⟩
+      · simp only [List.foldl_cons, fstep, Option.bind_some, he]; exact hr
+      · rw [hFC.2] at rest; exact rest
+
+/-- **C20, FasterTrie** (`fastertrie_refines_spec`): for every factor space, every history of
+    insert / erase(id, key) calls within the preconditions (non-empty valid keys; stale or never-issued ids
+    allowed in erase), the model never fails, and `filter(f)` for every full or prefix assignment `f` returns,
+    as a set, exactly the ids of the stored entries compatible with `f`; every stored key the
+    reconstruction can meet is valid, so `reconstruct_compatible` applies in every reachable state. -/
+theorem fastertrie_refines_spec (F : List Nat) (ops : List FOp) (hok : FHistOK F ([], 0) ops) :
+    ∃ t, ops.foldl fstep (some (FT.new F)) = some t ∧ RIF t (ops.foldl fspecStep ([], 0)).1 ∧
+      (∀ f id, f.length ≤ F.length → (∀ j, j < f.length → f.getD j 0 < F.getD j 0) →
+        (id ∈ t.filter f ↔ id ∈ specFilter (ops.foldl fspecStep ([], 0)).1 (prefixPF 0 f))) ∧
+      (∀ i v, ∀ e ∈ bucket t.keys i v, ValidPF t.F e.2) := by
+  obtain ⟨t, hr, hRI, hF⟩ := frun_RIF F ops (FT.new F) [] (RIF_new F) rfl hok
+  refine ⟨t, hr, hRI, ?_, ?_⟩
+  · intro f id hlen hval
+    exact ft_filter_mem hRI f (by rw [hF]; exact hlen) (by rw [hF]; exact hval) id
+  · intro i v e he
+    by_cases hi : i < t.F.length
+    · by_cases hv : v < t.F.getD i 0
+      · exact (hRI.valid e.1 e.2 ((hRI.mem i v e hi hv).mp he).1).1
+      · have : bucket t.keys i v = [] := by
+          show (t.keys.getD i []).getD v [] = []
+          rw [List.getD_eq_getElem?_getD (l := t.keys.getD i []), List.getElem?_eq_none (by rw [hRI.shape.2 i hi]; omega)]; rfl
+        rw [this] at he; cases he
+    · have : bucket t.keys i v = [] := by
+        show (t.keys.getD i []).getD v [] = []
+        rw [List.getD_eq_getElem?_getD (l := t.keys), List.getElem?_eq_none (by rw [hRI.shape.1]; omega)]; rfl
+      rw [this] at he; cases he
+
+example : FHistOK [3, 2] ([], 0) [.ins [(0, 1)], .ins [(0, 2), (1, 0)], .erp 0 [(0, 1)], .erp 0 [(0, 1)], .erp 9 [(1, 1)]] := by
+  simp [FHistOK, FOpOK, fspecStep, specInsert, specErase, ValidPF, KeysAsc]
 
 end AITB.Trie
